@@ -4,7 +4,10 @@
 // between commits, with several fractions of unsynced data surviving — the file system is cloned as
 // after a crash, reopened with pebble.Open + store.NewStoreWithDB, compared with the uncrashed run at
 // the height it reopens at (Version, Root, full state scan, historical scans, indexed blocks and QCs),
-// and the chain is continued from there. Every observation also goes through the Lean model
+// and the chain is continued from there. Histories contain Store.Rollback(target) in the middle (followed
+// by at least one further commit) and graceful close/reopen steps; the reopened store must be one of the
+// states the uncrashed run passed through no earlier than the last synced batch (Rollback applies with
+// pebble.Sync), and after a graceful stop exactly the last one. Every observation also goes through the Lean model
 // (lean/Driver/C09.lean): the database as a list of applied batches, a crash as a prefix.
 package c09
 
@@ -95,9 +98,9 @@ type block struct {
 	hash []byte
 }
 
-func mkBlock(caseSeed int64, h uint64, keys [][]byte) block {
-	r := rand.New(rand.NewSource(caseSeed*1000003 + int64(h)))
-	b := block{h: h, hash: crypto.Hash(append([]byte("blk"), be8(uint64(caseSeed)*7919+h)...))}
+func mkBlock(caseSeed int64, salt, h uint64, keys [][]byte) block {
+	r := rand.New(rand.NewSource(caseSeed*1000003 + int64(salt)))
+	b := block{h: h, hash: crypto.Hash(append([]byte("blk"), be8(uint64(caseSeed)*7919+salt)...))}
 	n := 3 + r.Intn(12)
 	seen := map[string]bool{}
 	for i := 0; i < n; i++ {
@@ -195,18 +198,138 @@ func sameScan(a, b []kv) bool {
 	return true
 }
 
+// one step of a history
+type event struct {
+	kind   string // "blk", "rollback", "reopen"
+	blk    block
+	target uint64
+}
+
+// snap is what the uncrashed run looked like after a number of applied batches (one per block commit,
+// one per effective rollback)
+type snap struct {
+	version int
+	chain   []int // chain[i-1] = index (into evs) of the block event that is height i in this snapshot
+	line    string // the model's op line of the event that produced this snapshot
+	lineRes string
+	isRollback bool
+}
+
 type clone struct {
-	fs      *vfs.MemFS
-	started int    // blocks whose commit had started when the clone was taken
-	done    int    // blocks whose Commit() had returned
-	op      string // the file-system operation the crash precedes
-	pct     int
+	fs       *vfs.MemFS
+	started  int    // batches whose application had started when the clone was taken
+	done     int    // batches whose application had returned
+	floor    int    // batches applied up to and including the last pebble.Sync apply (Rollback)
+	op       string // the file-system operation the crash precedes
+	pct      int
+	graceful bool // taken after Store.Close(): nothing may be lost
 }
 
 // recorded uncrashed run
 type record struct {
-	roots  [][]byte // roots[h] for h>=1
-	states [][]kv   // states[h] = full state scan after block h (states[0] = empty)
+	evs    []event
+	snaps  []snap   // snaps[b] after b batches
+	evOf   []int    // evOf[b] = index of the event that applied batch b (b>=1)
+	roots  [][]byte // roots[e] = root returned by the block event e
+	states [][]kv   // states[e] = full state scan after block event e
+}
+
+func (rec *record) stateAt(b, height int) []kv {
+	if height == 0 {
+		return nil
+	}
+	return rec.states[rec.snaps[b].chain[height-1]]
+}
+func (rec *record) rootOf(b int) []byte {
+	sn := rec.snaps[b]
+	if sn.version == 0 {
+		return nil
+	}
+	return rec.roots[sn.chain[sn.version-1]]
+}
+
+// staleAfterRollback: h is the target of a rollback among the first `upto` batches that is followed, within
+// those batches, by at least one block commit — the height a store reopens at when the pointer written by
+// the rollback shadows the pointers of the later commits
+func (rec *record) staleAfterRollback(h, upto int) (bool, int) {
+	for b := 1; b < upto; b++ {
+		if rec.snaps[b].isRollback && rec.snaps[b].version == h {
+			return true, b
+		}
+	}
+	return false, 0
+}
+
+func genEvents(r *rand.Rand, caseSeed int64, nBlocks int, keys [][]byte, withRollback bool) []event {
+	var evs []event
+	version, blocksMade, rollbacks, sinceRollback := 0, 0, 0, 2
+	for blocksMade < nBlocks {
+		if withRollback && rollbacks < 2 && version >= 2 && sinceRollback >= 1 && blocksMade <= nBlocks-2 && r.Intn(3) == 0 {
+			t := 1 + r.Intn(version-1)
+			evs = append(evs, event{kind: "rollback", target: uint64(t)})
+			version = t
+			rollbacks++
+			sinceRollback = 0
+			if r.Intn(2) == 0 {
+				evs = append(evs, event{kind: "reopen"})
+			}
+			continue
+		}
+		version++
+		blocksMade++
+		sinceRollback++
+		evs = append(evs, event{kind: "blk", blk: mkBlock(caseSeed, uint64(len(evs))*1000+uint64(version), uint64(version), keys)})
+		if rollbacks > 0 && sinceRollback >= 1 && r.Intn(5) == 0 {
+			evs = append(evs, event{kind: "reopen"})
+		}
+	}
+	if withRollback && rollbacks == 0 && len(evs) >= 4 {
+		// force the scenario: rewind in the middle, then the remaining blocks on top
+		cut := 2 + r.Intn(len(evs)-3)
+		t := 1 + r.Intn(cut-1)
+		tail := nBlocks - cut
+		evs = append(evs[:cut:cut], event{kind: "rollback", target: uint64(t)})
+		for i := 0; i < tail+1; i++ {
+			evs = append(evs, event{kind: "blk", blk: mkBlock(caseSeed, uint64(len(evs))*1000+uint64(t+i+1), uint64(t+i+1), keys)})
+		}
+	}
+	return evs
+}
+
+type node struct {
+	db *pebble.DB
+	s  *store.Store
+}
+
+func openNode(fs vfs.FS, cfg lib.Config) (n node, err error) {
+	defer func() {
+		if r := recover(); r != nil {
+			err = fmt.Errorf("panic: %v", r)
+		}
+	}()
+	n.db, err = pebble.Open("db", pebbleOpts(fs))
+	if err != nil {
+		return n, fmt.Errorf("pebble.Open: %w", err)
+	}
+	store.VerifPurgeBlockCache()
+	s, e := store.NewStoreWithDB(cfg, n.db, nil, lib.NewNullLogger())
+	if e != nil {
+		return n, fmt.Errorf("NewStoreWithDB: %s", e.Error())
+	}
+	n.s = s
+	return n, nil
+}
+
+func rollback(s *store.Store, t uint64) (err error) {
+	defer func() {
+		if r := recover(); r != nil {
+			err = fmt.Errorf("panic: %v", r)
+		}
+	}()
+	if e := s.Rollback(t); e != nil {
+		return e
+	}
+	return nil
 }
 
 func runCase(o *drv.Out, ci int, nBlocks int, maxClones int) {
@@ -223,14 +346,14 @@ func runCase(o *drv.Out, ci int, nBlocks int, maxClones int) {
 		}
 	}
 	keys = append(keys, fsm.SupplyPrefix(), fsm.KeyForPool(1), fsm.KeyForPool(2))
-	blocks := make([]block, nBlocks+1)
-	for h := 1; h <= nBlocks; h++ {
-		blocks[h] = mkBlock(caseSeed, uint64(h), keys)
-	}
+	withRollback := ci%4 != 3 // three cases in four rewind in the middle
+	evs := genEvents(r, caseSeed, nBlocks, keys, withRollback)
+	caseName := fmt.Sprintf("history-%d", ci)
+	replay := map[string]any{"case": caseName, "history": describe(evs)}
 
 	mem := vfs.NewCrashableMem()
 	var mu sync.Mutex
-	started, done := 0, 0
+	started, done, floor := 0, 0, 0
 	var clones []clone
 	opCount := 0
 	stride := 1 + r.Intn(4)
@@ -255,54 +378,117 @@ func runCase(o *drv.Out, ci int, nBlocks int, maxClones int) {
 		if pct > 0 {
 			cfg.RNG = randv2.New(randv2.NewPCG(uint64(caseSeed), uint64(opCount)))
 		}
-		clones = append(clones, clone{fs: mem.CrashClone(cfg), started: started, done: done, op: kindName(op.Kind), pct: pct})
+		clones = append(clones, clone{fs: mem.CrashClone(cfg), started: started, done: done, floor: floor, op: kindName(op.Kind), pct: pct})
 		return nil
 	})
 	fs := errorfs.Wrap(mem, inj)
-	db, err := pebble.Open("db", pebbleOpts(fs))
-	if err != nil {
-		o.Fail("C09:open-failed", err.Error(), nil)
-		return
-	}
 	cfg := lib.DefaultConfig()
 	cfg.StoreConfig.LSSCompactionInterval = 0
-	s, e := store.NewStoreWithDB(cfg, db, nil, lib.NewNullLogger())
-	if e != nil {
-		o.Fail("C09:open-failed", e.Error(), nil)
+	n, err := openNode(fs, cfg)
+	if err != nil {
+		o.Fail("C09:open-failed", err.Error(), replay)
 		return
 	}
-	rec := record{roots: make([][]byte, nBlocks+1), states: make([][]kv, nBlocks+1)}
+	rec := &record{evs: evs, snaps: []snap{{}}, evOf: []int{-1}, roots: make([][]byte, len(evs)), states: make([][]kv, len(evs))}
 	mu.Lock()
 	armed = true
 	mu.Unlock()
-	for h := 1; h <= nBlocks; h++ {
-		mu.Lock()
-		started = h
-		mu.Unlock()
-		root, err := commit(s, blocks[h])
-		if err != nil {
-			o.Fail("C09:commit-failed", fmt.Sprintf("block %d: %v", h, err), nil)
-			return
+	extra := 0
+	for ei, ev := range evs {
+		cur := rec.snaps[len(rec.snaps)-1]
+		switch ev.kind {
+		case "blk":
+			mu.Lock()
+			started = len(rec.snaps)
+			mu.Unlock()
+			root, err := commit(n.s, ev.blk)
+			if err != nil {
+				o.Fail("C09:commit-failed", fmt.Sprintf("event %d (block %d): %v", ei, ev.blk.h, err), replay)
+				return
+			}
+			if int(n.s.Version()) != cur.version+1 {
+				o.Fail("C09:commit-failed", fmt.Sprintf("event %d: Version()=%d after committing block %d", ei, n.s.Version(), cur.version+1), replay)
+				return
+			}
+			rec.roots[ei] = root
+			st, err := scan(n.s)
+			if err != nil {
+				o.Fail("C09:scan-failed", err.Error(), replay)
+				return
+			}
+			rec.states[ei] = st
+			rec.snaps = append(rec.snaps, snap{version: cur.version + 1, chain: append(append([]int{}, cur.chain...), ei),
+				line: ev.blk.opLine(root), lineRes: fmt.Sprintf("ok %d", cur.version+1)})
+			rec.evOf = append(rec.evOf, ei)
+			mu.Lock()
+			done = len(rec.snaps) - 1
+			mu.Unlock()
+		case "rollback":
+			mu.Lock()
+			started = len(rec.snaps)
+			mu.Unlock()
+			if err := rollback(n.s, ev.target); err != nil {
+				o.Fail("C09:rollback-failed", fmt.Sprintf("event %d: Rollback(%d) at height %d: %v", ei, ev.target, cur.version, err), replay)
+				return
+			}
+			t := int(ev.target)
+			if int(n.s.Version()) != t {
+				o.Fail("C09:rollback-failed", fmt.Sprintf("event %d: Version()=%d after Rollback(%d)", ei, n.s.Version(), t), replay)
+				return
+			}
+			st, err := scan(n.s)
+			if err != nil {
+				o.Fail("C09:scan-failed", err.Error(), replay)
+				return
+			}
+			if !sameScan(st, rec.states[cur.chain[t-1]]) {
+				o.Fail("C09:rollback-state-differs-from-target-height", fmt.Sprintf("event %d: after Rollback(%d) the latest state is %s, block %d had left %s", ei, t, showScan(st), t, showScan(rec.states[cur.chain[t-1]])), replay)
+				return
+			}
+			rec.snaps = append(rec.snaps, snap{version: t, chain: append([]int{}, cur.chain[:t]...), isRollback: true,
+				line: fmt.Sprintf("rollback %d", t), lineRes: fmt.Sprintf("ok %d %d", t, len(rec.snaps))})
+			rec.evOf = append(rec.evOf, ei)
+			mu.Lock()
+			done = len(rec.snaps) - 1
+			floor = done // applied with pebble.Sync: this batch and everything before it is durable
+			mu.Unlock()
+			o.Count("history:rollback")
+		case "reopen":
+			// graceful stop and start on the same file system
+			if e := n.s.Close(); e != nil {
+				o.Fail("C09:close-failed", e.Error(), replay)
+				return
+			}
+			mu.Lock()
+			floor = done // Close flushes: everything acknowledged is durable
+			mu.Unlock()
+			n, err = openNode(fs, cfg)
+			if err != nil {
+				o.Fail("C09:reopen-failed", "graceful restart: "+err.Error(), replay)
+				return
+			}
+			o.Count("history:graceful-restart")
+			if got := int(n.s.Version()); got != cur.version {
+				b := len(rec.snaps) - 1
+				if stale, rb := rec.staleAfterRollback(got, b); stale {
+					o.Fail("C09:reopens-at-stale-height:after-rollback", fmt.Sprintf("graceful restart after %d batches: the store opens at height %d — the target of the rollback that was batch %d — but %d further block(s) were committed since; last committed height is %d", b, got, rb, b-rb, cur.version), replay)
+				} else {
+					o.Fail("C09:reopened-at-height-of-no-prefix", fmt.Sprintf("graceful restart after %d batches: the store opens at height %d, last committed height is %d", b, got, cur.version), replay)
+				}
+				return
+			}
+			continue
 		}
-		mu.Lock()
-		done = h
-		mu.Unlock()
-		rec.roots[h] = root
-		st, err := scan(s)
-		if err != nil {
-			o.Fail("C09:scan-failed", err.Error(), nil)
-			return
-		}
-		rec.states[h] = st
-		// between commits: sometimes force a memtable flush (SST + manifest + WAL rotation)
+		// between events: sometimes force a memtable flush (SST + manifest + WAL rotation)
 		if r.Intn(4) == 0 {
-			_ = db.Flush()
+			_ = n.db.Flush()
 			o.Count("between:db.Flush")
 		}
-		// a crash exactly between commits, nothing in flight
+		// a crash exactly between events, nothing in flight
 		mu.Lock()
-		if len(clones) < maxClones+nBlocks {
-			clones = append(clones, clone{fs: mem.CrashClone(vfs.CrashCloneCfg{UnsyncedDataPercent: 100, RNG: randv2.New(randv2.NewPCG(uint64(caseSeed), uint64(h)))}), started: h, done: h, op: "between-commits", pct: 100})
+		if extra < len(evs) {
+			extra++
+			clones = append(clones, clone{fs: mem.CrashClone(vfs.CrashCloneCfg{UnsyncedDataPercent: 100, RNG: randv2.New(randv2.NewPCG(uint64(caseSeed), uint64(ei)))}), started: done, done: done, floor: floor, op: "between-commits", pct: 100})
 		}
 		mu.Unlock()
 	}
@@ -310,81 +496,123 @@ func runCase(o *drv.Out, ci int, nBlocks int, maxClones int) {
 	armed = false
 	cl := append([]clone{}, clones...)
 	mu.Unlock()
-	_ = s.Close()
+	_ = n.s.Close()
+	// graceful stop at the end of the history: nothing may be lost
+	last := len(rec.snaps) - 1
+	cl = append(cl, clone{fs: mem.CrashClone(vfs.CrashCloneCfg{UnsyncedDataPercent: 0}), started: last, done: last, floor: last, op: "after-close", pct: 0, graceful: true})
 	o.Extra["c09_fs_write_ops_last_case"] = opCount
 
 	for i, c := range cl {
-		checkClone(o, fmt.Sprintf("crash-%d-%d@%s/started%d/done%d/unsynced%d%%", ci, i, c.op, c.started, c.done, c.pct), c, blocks, rec, cfg, nBlocks)
+		checkClone(o, fmt.Sprintf("crash-%d-%d@%s/started%d/done%d/synced%d/unsynced%d%%", ci, i, c.op, c.started, c.done, c.floor, c.pct), c, rec, cfg)
 	}
 }
 
-func checkClone(o *drv.Out, name string, c clone, blocks []block, rec record, cfg lib.Config, nBlocks int) {
+func describe(evs []event) []string {
+	var out []string
+	for _, e := range evs {
+		switch e.kind {
+		case "blk":
+			out = append(out, fmt.Sprintf("commit block %d (%d sets, %d deletes)", e.blk.h, len(e.blk.sets), len(e.blk.dels)))
+		case "rollback":
+			out = append(out, fmt.Sprintf("Rollback(%d)", e.target))
+		default:
+			out = append(out, "close+reopen")
+		}
+	}
+	return out
+}
+
+func checkClone(o *drv.Out, name string, c clone, rec *record, cfg lib.Config) {
 	o.Case(name)
-	replay := map[string]any{"case": name}
+	replay := map[string]any{"case": name, "history": describe(rec.evs), "batches_started": c.started, "batches_acknowledged": c.done, "batches_synced": c.floor}
 	fail := func(sig, desc string) { o.Fail(sig, desc, replay) }
-	// the model sees the uncrashed run up to the blocks started at clone time
-	for h := 1; h <= c.started; h++ {
-		o.Op(blocks[h].opLine(rec.roots[h]), fmt.Sprintf("ok %d", h))
+	// the model sees the uncrashed run up to the batches started at clone time
+	for b := 1; b <= c.started; b++ {
+		o.Op(rec.snaps[b].line, rec.snaps[b].lineRes)
 	}
-	var db *pebble.DB
-	var err error
-	func() {
-		defer func() {
-			if r := recover(); r != nil {
-				err = fmt.Errorf("panic: %v", r)
-			}
-		}()
-		db, err = pebble.Open("db", pebbleOpts(c.fs))
-	}()
+	n, err := openNode(c.fs, cfg)
 	if err != nil {
-		o.Count("reopen:pebble-open-error")
-		fail("C09:reopen-failed", "pebble.Open on the crashed file system: "+err.Error())
+		o.Count("reopen:open-error")
+		fail("C09:reopen-failed", "on the crashed file system: "+err.Error())
 		return
 	}
-	store.VerifPurgeBlockCache()
-	s, e := store.NewStoreWithDB(cfg, db, nil, lib.NewNullLogger())
-	if e != nil {
-		fail("C09:reopen-failed", "NewStoreWithDB: "+e.Error())
-		return
-	}
+	s := n.s
 	defer func() {
 		defer func() { _ = recover() }()
 		_ = s.Close()
 	}()
 	h := int(s.Version())
-	o.Count(fmt.Sprintf("reopen:height=done%+d", h-c.done))
-	o.Count("crash-before:" + c.op)
-	o.Count(fmt.Sprintf("unsynced-survives:%d%%", c.pct))
-	o.Nontrivial(fmt.Sprintf("%s pct=%d lag=%d h=%d", c.op, c.pct, c.started-h, h))
-	if h > c.started {
-		fail("C09:reopened-at-uncommitted-height", fmt.Sprintf("reopened at %d but only %d block commits had started", h, c.started))
-		return
-	}
-	o.Op(fmt.Sprintf("crash %d", h), fmt.Sprintf("ok %d", h))
-	// state
 	st, err := scan(s)
 	if err != nil {
 		fail("C09:reopened-state-unreadable", err.Error())
 		return
 	}
-	o.Op("state", showScan(st))
-	if !sameScan(st, rec.states[h]) {
-		fail("C09:state-differs-from-committed-height", fmt.Sprintf("reopened at %d: state %s, uncrashed run had %s", h, showScan(st), showScan(rec.states[h])))
-	}
-	// root
+	var root []byte
 	if h >= 1 {
-		root, e := s.Root()
+		rt, e := s.Root()
 		if e != nil {
 			fail("C09:root-unreadable", e.Error())
-		} else {
-			o.Op("root", "v "+drv.Hex(root))
-			if !bytes.Equal(root, rec.roots[h]) {
-				fail("C09:root-differs-from-committed-height", fmt.Sprintf("reopened at %d: Root()=%x, committed root %x", h, root, rec.roots[h]))
-			}
+			return
 		}
+		root = rt
 		// Root() caches the SMT on the store object (IsRootCached); drop it before writing further,
 		// as the node does by only calling Root() at the end of a block
 		s.Reset()
+	}
+	// which state of the uncrashed run is this? the surviving batches are a prefix no shorter than the
+	// last synced one (after a graceful stop: all of them)
+	p, heightMatch := -1, -1
+	for b := c.started; b >= c.floor; b-- {
+		if rec.snaps[b].version != h {
+			continue
+		}
+		if heightMatch < 0 {
+			heightMatch = b
+		}
+		if sameScan(st, rec.stateAt(b, h)) && (h == 0 || bytes.Equal(root, rec.rootOf(b))) {
+			p = b
+			break
+		}
+	}
+	if p < 0 {
+		lastH := rec.snaps[c.done].version
+		if stale, rb := rec.staleAfterRollback(h, c.done); stale && h != lastH {
+			fail("C09:reopens-at-stale-height:after-rollback", fmt.Sprintf("reopened at height %d — the target of the rollback that was batch %d — although %d further batch(es) had been applied and acknowledged since (last committed height %d, last synced batch %d); Root()=%x, state %s", h, rb, c.done-rb, lastH, c.floor, root, showScan(st)))
+			return
+		}
+		if heightMatch < 0 {
+			fail("C09:reopened-at-uncommitted-height", fmt.Sprintf("reopened at %d: no state between the last synced batch %d and the last started batch %d has that height", h, c.floor, c.started))
+			return
+		}
+		// right height, wrong content: go on with the comparisons against that prefix
+		p = heightMatch
+	}
+	o.Count(fmt.Sprintf("reopen:batches=acknowledged%+d", p-c.done))
+	o.Count("crash-before:" + c.op)
+	o.Count(fmt.Sprintf("unsynced-survives:%d%%", c.pct))
+	if rb, _ := rec.staleAfterRollback(-1, 0); !rb {
+		for b := 1; b < p; b++ {
+			if rec.snaps[b].isRollback {
+				o.Count("reopen:after-rollback-and-further-commits")
+				break
+			}
+		}
+	}
+	o.Nontrivial(fmt.Sprintf("%s pct=%d lag=%d h=%d rb=%v", c.op, c.pct, c.started-p, h, rec.snaps[p].isRollback))
+	if c.graceful && p != c.done {
+		fail("C09:acknowledged-commit-lost-after-graceful-stop", fmt.Sprintf("after Close() the store reopens at the state after %d batches, %d were acknowledged", p, c.done))
+		return
+	}
+	o.Op(fmt.Sprintf("crash %d", p), fmt.Sprintf("ok %d", h))
+	o.Op("state", showScan(st))
+	if !sameScan(st, rec.stateAt(p, h)) {
+		fail("C09:state-differs-from-committed-height", fmt.Sprintf("reopened at %d: state %s, uncrashed run had %s", h, showScan(st), showScan(rec.stateAt(p, h))))
+	}
+	if h >= 1 {
+		o.Op("root", "v "+drv.Hex(root))
+		if !bytes.Equal(root, rec.rootOf(p)) {
+			fail("C09:root-differs-from-committed-height", fmt.Sprintf("reopened at %d: Root()=%x, committed root %x", h, root, rec.rootOf(p)))
+		}
 	}
 	// earlier heights
 	for i := 1; i <= h; i++ {
@@ -403,12 +631,18 @@ func checkClone(o *drv.Out, name string, c clone, blocks []block, rec record, cf
 			continue
 		}
 		o.Op(fmt.Sprintf("stateat %d", i), showScan(hs))
-		if !sameScan(hs, rec.states[i]) {
+		if !sameScan(hs, rec.stateAt(p, i)) {
 			fail("C09:earlier-height-changed", fmt.Sprintf("reopened at %d: state as of %d differs from what was committed", h, i))
 		}
 	}
 	// indexed blocks and QCs: present exactly for 1..h
-	for i := 1; i <= c.started; i++ {
+	maxH := 0
+	for b := 0; b <= c.started; b++ {
+		if rec.snaps[b].version > maxH {
+			maxH = rec.snaps[b].version
+		}
+	}
+	for i := 1; i <= maxH; i++ {
 		blk, e := s.GetBlockByHeight(uint64(i))
 		var hash []byte
 		if e == nil && blk != nil && blk.BlockHeader != nil {
@@ -426,30 +660,40 @@ func checkClone(o *drv.Out, name string, c clone, blocks []block, rec record, cf
 		o.Op("idx "+drv.Hex(append([]byte{'q'}, be8(uint64(i))...)), "v "+drv.Hex(qcHash))
 		want := []byte(nil)
 		if i <= h {
-			want = blocks[i].hash
+			want = rec.evs[rec.snaps[p].chain[i-1]].blk.hash
 		}
 		if !bytes.Equal(hash, want) || !bytes.Equal(qcHash, want) {
 			fail("C09:index-differs-from-committed-height", fmt.Sprintf("reopened at %d: block %d hash %x qc %x, expected %x", h, i, hash, qcHash, want))
 		}
 	}
-	// continue the chain from h
-	for i := h + 1; i <= nBlocks; i++ {
-		root, err := commit(s, blocks[i])
+	// continue the history from batch p
+	last := len(rec.snaps) - 1
+	for b := p + 1; b <= last; b++ {
+		ev := rec.evs[rec.evOf[b]]
+		if ev.kind == "rollback" {
+			if err := rollback(s, ev.target); err != nil {
+				fail("C09:cannot-continue", fmt.Sprintf("reopened at %d, Rollback(%d): %v", h, ev.target, err))
+				return
+			}
+			o.Op(rec.snaps[b].line, rec.snaps[b].lineRes)
+			continue
+		}
+		root, err := commit(s, ev.blk)
 		if err != nil {
-			fail("C09:cannot-continue", fmt.Sprintf("reopened at %d, block %d: %v", h, i, err))
+			fail("C09:cannot-continue", fmt.Sprintf("reopened at %d, block %d: %v", h, ev.blk.h, err))
 			return
 		}
-		o.Op(blocks[i].opLine(root), fmt.Sprintf("ok %d", i))
-		if !bytes.Equal(root, rec.roots[i]) {
-			fail("C09:continued-root-differs", fmt.Sprintf("reopened at %d, block %d: root %x, uncrashed %x", h, i, root, rec.roots[i]))
+		o.Op(ev.blk.opLine(root), rec.snaps[b].lineRes)
+		if !bytes.Equal(root, rec.roots[rec.evOf[b]]) {
+			fail("C09:continued-root-differs", fmt.Sprintf("reopened at %d, block %d: root %x, uncrashed %x", h, ev.blk.h, root, rec.roots[rec.evOf[b]]))
 			return
 		}
 	}
 	st, err = scan(s)
 	if err == nil {
 		o.Op("state", showScan(st))
-		if !sameScan(st, rec.states[nBlocks]) {
-			fail("C09:continued-state-differs", fmt.Sprintf("reopened at %d and continued to %d: final state differs from the uncrashed run", h, nBlocks))
+		if !sameScan(st, rec.stateAt(last, rec.snaps[last].version)) {
+			fail("C09:continued-state-differs", fmt.Sprintf("reopened at %d and continued to the end of the history: final state differs from the uncrashed run", h))
 		}
 	}
 	o.Count("clone:checked")
@@ -466,10 +710,10 @@ func Run(o *drv.Out) {
 	}
 	keys := make([]string, 0)
 	for k := range o.Hist {
-		if strings.HasPrefix(k, "reopen:height") {
+		if strings.HasPrefix(k, "reopen:batches") {
 			keys = append(keys, fmt.Sprintf("%s=%d", k, o.Hist[k]))
 		}
 	}
 	sort.Strings(keys)
-	o.Sample("reopened height relative to the last acknowledged commit: " + strings.Join(keys, " "))
+	o.Sample("reopened state relative to the last acknowledged batch: " + strings.Join(keys, " "))
 }
